@@ -260,6 +260,8 @@ let q_spell (it : item) : string =
   | Err e, _ | _, Err e -> "generr:" ^ gerr_name e
   | _ -> "genpanic"
 
+let iter_cache : (int, iter_code res) Hashtbl.t = Hashtbl.create 64
+let ctor_str (c : ctor) = Printf.sprintf "v%d%s" (i_nat c.ct_variant) (defaults (i_nat c.ct_nfields))
 (* structural summary of the model's from_str_code, in the format harness/genprobe prints for the REAL tokens *)
 let q_struct (k : int) (it : item) (args : string list) : string =
   match args with
@@ -277,6 +279,15 @@ let q_struct (k : int) (it : item) (args : string list) : string =
         | FDefault (v, Some n) -> Printf.sprintf "default:v%d:%s" (i_nat v) (string_of_str n)) in
       Printf.sprintf "phf=[%s]|arms=[%s]|fall=%s|errty=%s|tryfrom=delegates" (String.concat ";" phf) (String.concat ";" arms) fall
         (if c.fs_custom_err then "custom" else "strum")) (memo fs_cache k (fun () -> gen_from_str it))
+  | ["EnumIter"] ->
+    res_str (fun c ->
+      let cnt = iter_count c in
+      let rec ocaml_of_coq (x : Model.string) : string =
+        (match x with EmptyString -> "" | String (a, r) -> String.make 1 (char_of_ascii a) ^ ocaml_of_coq r) in
+      Printf.sprintf "nth=%s|next_back=%s|size_hint=%s|next=nth0|len=hint0|table=[%s]"
+        (ocaml_of_coq (show_stmt cnt prog_nth)) (ocaml_of_coq (show_stmt cnt prog_next_back))
+        (ocaml_of_coq (show_stmt cnt prog_size_hint)) (String.concat ";" (List.map ctor_str (ic_table c))))
+      (memo iter_cache k (fun () -> gen_iter it))
   | _ -> failwith "no structural summary for this derive"
 
 (* ----- Display & co ----- *)
@@ -405,8 +416,6 @@ let q_caprt (k : int) (it : item) (args : string list) : string =
 let q_names (it : item) : string = res_str hexl (gen_variant_names it)
 
 (* ----- EnumIter / EnumCount / VariantArray ----- *)
-let iter_cache : (int, iter_code res) Hashtbl.t = Hashtbl.create 64
-let ctor_str (c : ctor) = Printf.sprintf "v%d%s" (i_nat c.ct_variant) (defaults (i_nat c.ct_nfields))
 let q_iter (k : int) (it : item) : string =
   res_str (fun c -> "[" ^ String.concat ";" (List.map ctor_str (ic_table c)) ^ "]") (memo iter_cache k (fun () -> gen_iter it))
 let q_count (it : item) : string = res_str (fun n -> string_of_int (i_nat n)) (gen_count it)
